@@ -149,7 +149,7 @@ theorem jstep_stopCalled : AioSpec.step j .closeCall = { j with stopCalled := tr
     AioSpec.step j .stopCall = { j with stopCalled := true } ∧ AioSpec.step j .freeCall = { j with stopCalled := true } := by
   simp [AioSpec.step.eq_def, h1, h2]
 
-theorem jstep_cbEnd : AioSpec.step j .cbEnd = { j with openCb := j.openCb - 1 } := by
+theorem jstep_cbEnd : AioSpec.step j .cbEnd = { j with openCb := j.openCb - 1, oldCb := j.oldCb - 1 } := by
   simp [AioSpec.step.eq_def, h1, h2]
 
 theorem jstep_peek (r : Nat) (hp : j.reports = j.ops.length → ∀ x, j.lastCb = some x → x = r) :
@@ -164,7 +164,7 @@ theorem jstep_peek (r : Nat) (hp : j.reports = j.ops.length → ∀ x, j.lastCb 
     | some x => exact absurd (by rw [hl, hp ha x hl]) hc
   · rfl
 
-theorem jstep_stopRet (hc : j.openCb = 0) (hr : ∀ o ∈ j.ops, o.retBeforeStop = true → o.reported = true) :
+theorem jstep_stopRet (hc : j.oldCb = 0) (hr : ∀ o ∈ j.ops, o.retBeforeStop = true → o.reported = true) :
     AioSpec.step j .stopRet = { j with stopReturned := true } := by
   have hn : (j.ops.any fun o => o.retBeforeStop && !o.reported) = false := by
     rw [List.any_eq_false]
@@ -183,7 +183,8 @@ theorem jstep_cbBegin (r : Nat) (o : Op) (hp : j.pendingOp = some o)
     (c5 : o.decided = none → unprovoked o r j.stopCalled = true)
     (c6 : j.stopReturned = true → r ≠ ESTOPPED → isDirect o.kind = true ∨ o.kind = .ext) :
     AioSpec.step j (.cbBegin r) =
-      { j with reports := j.reports + 1, ops := markReported j.ops j.reports, openCb := j.openCb + 1, lastCb := some r } := by
+      { j with reports := j.reports + 1, ops := markReported j.ops j.reports, openCb := j.openCb + 1, lastCb := some r,
+               oldCb := j.oldCb + (if (!j.stopCalled || o.retBeforeStop) = true then 1 else 0) } := by
   simp only [AioSpec.step.eq_def, h1, h2, Option.isSome_none, Bool.false_eq_true, ↓reduceIte, hp]
   rw [if_neg, if_neg, if_neg, if_neg, if_neg, if_neg]
   · -- c6
